@@ -41,10 +41,10 @@ def cur():
 
 
 class Entry:
-    __slots__ = ('cond', 'dec', 'done', 'aux', 'ref_t', 'ref_f', 'is_assume')
+    __slots__ = ('cond', 'dec', 'done', 'aux', 'ref_t', 'ref_f', 'is_assume', 'is_note')
 
     def __init__(self, cond, dec, done, aux=None, ref_t=None, ref_f=None,
-                 is_assume=False):
+                 is_assume=False, is_note=False):
         self.cond = cond
         self.dec = dec
         self.done = done          # alternative exhausted / infeasible
@@ -52,6 +52,7 @@ class Entry:
         self.ref_t = ref_t
         self.ref_f = ref_f
         self.is_assume = is_assume
+        self.is_note = is_note
 
 
 class Explorer:
@@ -135,6 +136,10 @@ class Explorer:
     def fork(self, cond, aux=None, refine=None):
         if self.pos < len(self.trail):
             e = self.trail[self.pos]
+            if e.is_assume or e.is_note or e.cond.get_id() != cond.get_id():
+                raise Unmodelled('replay desynchronised: the harness or the code under analysis did not '
+                                 'repeat its decisions (position %d: %s vs %s)' % (
+                                     self.pos, str(e.cond)[:80], str(cond)[:80]))
             self.pos += 1
             self._apply_ref(e)
             return e.dec
@@ -160,6 +165,8 @@ class Explorer:
                 raise PathAbort()
             return
         if self.pos < len(self.trail):
+            if not self.trail[self.pos].is_assume:
+                raise Unmodelled('replay desynchronised: assume where a fork was recorded (position %d)' % self.pos)
             self.pos += 1
             return
         self.stats['assumes'] += 1
@@ -170,6 +177,23 @@ class Explorer:
             if not z3.is_true(self._model.eval(cond, model_completion=True)):
                 self._model = None
         self.pos += 1
+
+    def note(self, compute):
+        """A solver-derived fact that steers control flow (e.g. 'is this valid
+        on the current path?').  Its value is recorded in the trail so that the
+        re-execution of the prefix repeats it exactly: during replay the solver
+        already holds later decisions of the path and could answer differently."""
+        if self.pos < len(self.trail):
+            e = self.trail[self.pos]
+            if not e.is_note:
+                raise Unmodelled('replay desynchronised: note where a decision was recorded (position %d)' % self.pos)
+            self.pos += 1
+            return e.aux
+        value = compute()
+        self.trail.append(Entry(None, True, True, aux=value, is_note=True))
+        self.solver.push()
+        self.pos += 1
+        return value
 
     # ------------------------------------------------------------- search
     def next_path(self):
@@ -673,6 +697,8 @@ class SymInt:
         while True:
             if ex.replaying():
                 v = ex.trail[ex.pos].aux
+                if v is None:
+                    raise Unmodelled('replay desynchronised at a realisation point (non-deterministic harness?)')
             else:
                 v = ex.get_model().eval(self.e, model_completion=True).as_signed_long()
                 ex.stats['realisations'] += 1
